@@ -468,6 +468,9 @@ class Project(MessageHandler):
             length = task.get("length", scIdx) or 0
             start = task.get("start", scIdx)
             end = task.get("end", scIdx)
+            if start and task.inherited("start", scIdx):
+                # A start inherited from a container is a bound for the main loop, not a date
+                start = None
 
             # Implicit milestone: has start/end but no duration metrics
             is_implicit_milestone = (start or end) and effort == 0 and duration == 0 and length == 0
